@@ -104,7 +104,10 @@ def run_pair(ini_llcp, tgt_llcp, ini_app=None, tgt_app=None, horizon=30.0,
                     pass
         return body
 
-    s.spawn(side('tgt', dict(tgt_llcp, role='target'), tgt_app), 'tgt')
-    s.spawn(side('ini', dict(ini_llcp, role='initiator'), ini_app), 'ini')
+    # (an explicit 'role' in the options wins: role None makes that side try
+    # the Target role first and the Initiator role when nobody polled it)
+    s.spawn(side('tgt', dict(dict(role='target'), **tgt_llcp), tgt_app), 'tgt')
+    s.spawn(side('ini', dict(dict(role='initiator'), **ini_llcp), ini_app),
+            'ini')
     s.ctx = ctx
     return s, ctx, net
